@@ -702,7 +702,7 @@ def gen_case(ctx):
 def run(ctx):
     for p in sorted(glob.glob(os.path.join(CORPUS_DIR, "C09", "*.json"))):
         run_case(ctx, json.load(open(p)))
-    for _ in range(ctx.n(500)):
+    for _ in range(ctx.n(1200)):
         gen_case(ctx)
 
 
